@@ -121,3 +121,15 @@ Proof.
     induction ds as [|m t IHm]; constructor; [|exact IHm].
     apply canon_rows_eqm. exact canon_diff_eqm.
 Qed.
+
+(* non-vacuity: 3 components x 3 rows x 2 columns, 16 bit, restart every row / every 2 rows / none *)
+Definition rgb16 : list (list (list Z)) :=
+  [[[0; 65535]; [65535; 0]; [1; 65534]]; [[65535; 0]; [0; 65535]; [32768; 32767]]; [[0; 0]; [65535; 65535]; [0; 65535]]].
+Lemma rgb16_ok : mrows_ok 16 3 2 rgb16.
+Proof. unfold rgb16, mrows_ok, in_prec. repeat constructor; cbn; lia. Qed.
+Lemma rgb16_roundtrip_computed :
+  forallb (fun psv => forallb (fun ri =>
+     match codec_scan 3 ri 2 psv 16 0 rgb16 with
+     | Some out => if list_eq_dec (list_eq_dec (list_eq_dec Z.eq_dec)) out rgb16 then true else false
+     | None => false end) [0; 2; 4]) [1; 2; 3; 4; 5; 6; 7] = true.
+Proof. vm_compute. reflexivity. Qed.
